@@ -182,7 +182,8 @@ def _enc_len(n):
 
 PEM_FAULTS = ["drop_header", "drop_footer", "damage_header", "damage_b64",
               "bad_pad", "strip_newlines", "crlf", "extra_text", "dup_block",
-              "truncate", "flip", "empty_body", "non_ascii", "b64_of_damaged"]
+              "truncate", "flip", "empty_body", "non_ascii", "b64_of_damaged",
+              "long_label", "many_words"]
 
 
 def apply_pem_fault(r, pem, kind, der_fault=None):
@@ -232,6 +233,24 @@ def apply_pem_fault(r, pem, kind, der_fault=None):
                         b"-----BEGIN EC PARAMETERS-----\nBgUrgQQAIQ==\n"
                         b"-----END EC PARAMETERS-----\n"])
         return (pre + pem) if r.random() < 0.5 else (pem + pre), "extra text"
+    if kind in ("long_label", "many_words"):
+        # a boundary line whose label is very long / has very many words and
+        # is not closed properly (label grammars invite backtracking)
+        abc = b"ABCDEFGHIJKLMNOPQRSTUVWXYZ0123456789"
+        if kind == "long_label":
+            lab = bytes(r.choice(abc) for _ in range(r.choice([30, 40, 64,
+                                                               200, 4000])))
+        else:
+            lab = b" ".join(bytes(r.choice(abc) for _ in range(
+                r.choice([1, 2, 7]))) for _ in range(r.choice([12, 30, 80])))
+        tail = r.choice([b"", b"----", b" -----", b"-----x", b"\n", b"!-----"])
+        line = b"-----BEGIN " + lab + tail
+        c = r.randrange(3)
+        if c == 0:
+            return line + b"\n" + pem, "unclosed boundary line in front"
+        if c == 1:
+            return b"\n".join([line] + lines[1:]), "BEGIN line replaced"
+        return pem + line + b"\n", "unclosed boundary line after"
     if kind == "dup_block":
         return pem + pem, "two PEM blocks"
     if kind == "truncate":
